@@ -31,7 +31,7 @@ def tu(g, cases, dflt=()):
          'struct H { unsigned r; template<typename... A> constexpr unsigned operator()(A... a) const { unsigned h = r + 1u; ((h = h * 31u + unsigned((unsigned char)char(a))), ...); return h; } };',
          '// nonterminal values are unsigned, term values are chars: one overload set turns both into unsigned',
          'struct HF { unsigned r; template<typename... A> constexpr unsigned operator()(A... a) const { unsigned h = r + 1u; ((h = h * 31u + conv(a)), ...); return h; }',
-         '  static constexpr unsigned conv(unsigned v) { return v; } static constexpr unsigned conv(const term_value<char>& v) { return unsigned((unsigned char)v.get_value()) + 7u * unsigned(v.get_sp().line) + 13u * unsigned(v.get_sp().column); } };',
+         '  static constexpr unsigned conv(unsigned v) { return v; } static constexpr unsigned conv(no_type) { return 5u; } static constexpr unsigned conv(const term_value<char>& v) { return unsigned((unsigned char)v.get_value()) + 7u * unsigned(v.get_sp().line) + 13u * unsigned(v.get_sp().column); } };',
          '// the value type of the nonterminals: constructible from what a functor returns and - for rules without a functor - from',
          '// the right-side values themselves, hashed in the order they are handed over',
          'struct V { unsigned h = 0; constexpr V() = default; constexpr V(unsigned x) : h(x) {} constexpr V(const term_value<char>& a) : h(HF{~0u}(a)) {}',
@@ -52,7 +52,7 @@ def tu(g, cases, dflt=()):
     tid = {t: g.ts.index(t) for t in g.ts}      # (a name listed twice denotes its FIRST declaration)
     rl = []
     for ri, (l, rhs, prec) in enumerate(g.rules):
-        args = ', '.join('n%d' % ntid[x] if x in ntid else tname[x] for x in rhs)
+        args = ', '.join('n%d' % ntid[x] if x in ntid else ('error' if x == 'error' else tname[x]) for x in rhs)
         r = 'n%d(%s)' % (ntid[l], args)
         if prec:
             r = '(%s[%d])' % (r, prec)
@@ -67,7 +67,8 @@ def tu(g, cases, dflt=()):
         o.append('constexpr auto r%d = run(cstring_buffer(%s), %s, %s);' % (i, lit(c['bytes']), 'true' if c['ws'] else 'false', 'true' if c['nl'] else 'false'))
         if c['ok']:
             o.append('static_assert(r%d.has_value(), "CT%d:accept");' % (i, i))
-            o.append('static_assert(!r%d.has_value() || r%d.value() == %du, "CT%d:value");' % (i, i, c['val'], i))
+            if c['val'] is not None:
+                o.append('static_assert(!r%d.has_value() || r%d.value() == %du, "CT%d:value");' % (i, i, c['val'], i))
         else:
             o.append('static_assert(!r%d.has_value(), "CT%d:reject");' % (i, i))
         if not c['ok'] or i % 3 == 0:
@@ -156,7 +157,8 @@ def lex_tu(terms, shape_rules, cases):
         o.append('constexpr auto r%d = run(cstring_buffer(%s), %s, %s);' % (i, lit(c['bytes']), 'true' if c['ws'] else 'false', 'true' if c['nl'] else 'false'))
         if c['ok']:
             o.append('static_assert(r%d.has_value(), "CT%d:accept");' % (i, i))
-            o.append('static_assert(!r%d.has_value() || r%d.value() == %du, "CT%d:value");' % (i, i, c['val'], i))
+            if c['val'] is not None:
+                o.append('static_assert(!r%d.has_value() || r%d.value() == %du, "CT%d:value");' % (i, i, c['val'], i))
         else:
             o.append('static_assert(!r%d.has_value(), "CT%d:reject");' % (i, i))
         if not c['ok'] or i % 3 == 0:
